@@ -108,9 +108,12 @@ class Layout:
             """`(w.0)` with nothing else: the only field of a wrapper"""
             return pl.get("p") == [".0"]
         for s in b["blocks"][R]["s"]:
-            if s["d"]["l"] == 0 and s["r"].get("k") == "use" and s["r"]["op"].get("k") == "move":
-                buf = s["r"]["op"]["pl"]["l"]
-        if buf is None:
+            if s["d"]["l"] == 0 and not s["d"].get("p") and s["r"].get("k") == "use" and s["r"]["op"].get("k") == "move":
+                if not s["r"]["op"]["pl"].get("p"):
+                    buf = s["r"]["op"]["pl"]["l"]
+                elif newtype_src(s["r"]["op"]["pl"]):
+                    wrap.add(s["r"]["op"]["pl"]["l"])        # `.. .0` as the tail expression
+        if buf is None and not wrap:
             # the move into _0 may sit in another block (code inlined from a helper that returned the buffer): a single `_0 = move x`
             movs = [s for blk in b["blocks"] for s in blk["s"] if s["d"]["l"] == 0 and not s["d"].get("p") and s["r"].get("k") == "use" and s["r"]["op"].get("k") == "move" and not s["r"]["op"]["pl"].get("p")]
             if len(movs) == 1:
@@ -180,6 +183,8 @@ class Layout:
         ex = self.expand_call(r) if kind == "call" else None
         if ex is not None:
             tokens.extend((tok, o or opt0) for tok, o in ex)
+        elif kind == "call" and r["f"].get("k") == "fn" and re.search(r"Vec::<T>::new$|Vec::<T>::with_capacity$|Default>::default$", r["f"]["fn"].get("rpath", r["f"]["fn"]["path"])):
+            pass              # the buffer starts empty: every byte comes from an append below
         else:
             first = self.call(r, 0) if kind == "call" else self.operand(r.get("op", {}), 0)
             tokens.append((first, opt0))
